@@ -297,7 +297,9 @@ func (s *BaseNodeService) executeOperation(operation *types.Operation) error {
 		}
 	} else {
 		//for now only ReinitDKG can have the OperationProcessed event
-		if err := s.finishReinit(operation); err != nil {
+		// which round is finished is decided by the operation as the node issued
+		// it: the answer's round header is not among the fields it is matched by
+		if err := s.finishReinit(storedOperation.DKGIdentifier, operation.ExtraData); err != nil {
 			return err
 		}
 	}
@@ -311,22 +313,24 @@ func (s *BaseNodeService) executeOperation(operation *types.Operation) error {
 
 // finishReinit writes the public polynomial the airgapped machine answered
 // with into the reinitialised round.
-func (s *BaseNodeService) finishReinit(operation *types.Operation) error {
+func (s *BaseNodeService) finishReinit(dkgID string, pubPolyBz []byte) error {
 	s.roundMu.Lock()
 	defer s.roundMu.Unlock()
 
-	dkgID := operation.DKGIdentifier
-	fsm, err := s.fsmService.GetFSMInstance(string(dkgID), false)
+	fsm, err := s.fsmService.GetFSMInstance(dkgID, false)
 	if err != nil {
 		return fmt.Errorf("failed to get fsm instance during operation processing: %w", err)
 	}
-	fsm.FSMDump().Payload.DKGProposalPayload.PubPolyBz = operation.ExtraData
+	if fsm.FSMDump().Payload.DKGProposalPayload == nil {
+		return fmt.Errorf("round %s has not got as far as a key generation: there is no public polynomial to set", dkgID)
+	}
+	fsm.FSMDump().Payload.DKGProposalPayload.PubPolyBz = pubPolyBz
 	dump, err := fsm.Dump()
 	if err != nil {
 		return fmt.Errorf("failed to dump fsm instance during operation processing: %w", err)
 	}
 
-	err = s.fsmService.SaveFSM(operation.DKGIdentifier, dump)
+	err = s.fsmService.SaveFSM(dkgID, dump)
 	if err != nil {
 		return fmt.Errorf("failed to save fsm dump during operation processing: %w", err)
 	}
